@@ -322,7 +322,14 @@ def run(ctx):
     fmod = factory.module if factory.module.functions.get("filter_dominated_operations") else next(
         (mi for mi in repo.modules.values() if "filter_dominated_operations" in mi.functions), factory.module)
     for fi in fmod.functions.values():
-        n_tab += _per_machine_tables(ctx, fi)
+        # generators that yield (operation, machine, ...) are written out into
+        # the loops that consume them, so that what is stored is seen next to
+        # the `for m in <op>.machines` it belongs to
+        try:
+            ff = ctx.norm.flat(fi, depth=3)
+        except AnalysisError:
+            ff = fi
+        n_tab += _per_machine_tables(ctx, ff)
     chk.analysed["per_machine_table_stores"] = n_tab
     if n_tab == 0:
         chk.ok("R07.f", fmod.name, "", "no per-machine table is filled in a machine loop in the filter module")
@@ -447,6 +454,8 @@ def _after_composite(ctx, repo, chk):
 
     def filt_call(call, env, interp):
         f = call.func
+        if isinstance(f, ast.Name):
+            f = ctx.norm.xexpr(avail, f)  # `flt = self.ready_operations_filter` ... `flt(self, ops)`
         if (
             isinstance(f, ast.Attribute) and f.attr == "ready_operations_filter"
             and isinstance(f.value, ast.Name) and f.value.id == "self" and len(call.args) == 2
@@ -461,7 +470,7 @@ def _after_composite(ctx, repo, chk):
         # which branch of `self.ready_operations_filter is not None` are we on?
         has_filter = None
         for e in path.events:
-            if e.kind == "branch" and "ready_operations_filter" in e.data.get("text", ""):
+            if e.kind == "branch" and ("ready_operations_filter" in e.data.get("text", "") or "ready_operations_filter" in ctx.norm.xtext(avail, e.node)):
                 t = e.node
                 neg = isinstance(t, ast.Compare) and isinstance(t.ops[0], (ast.Is, ast.Eq))
                 isnot = isinstance(t, ast.Compare) and isinstance(t.ops[0], (ast.IsNot, ast.NotEq))
